@@ -5,11 +5,14 @@ use serde_json::Value;
 pub mod c02;
 pub mod c03;
 pub mod c04;
+pub mod c05;
 pub mod c06;
 pub mod c08;
 pub mod c12;
 pub mod c13;
 pub mod c14;
+pub mod c16;
+pub mod c17;
 pub mod c19;
 
 pub fn run(id: &str, thorough: bool) -> Option<Outcome> {
@@ -17,11 +20,14 @@ pub fn run(id: &str, thorough: bool) -> Option<Outcome> {
         "C02" => Some(c02::run(thorough)),
         "C03" => Some(c03::run(thorough)),
         "C04" => Some(c04::run(thorough)),
+        "C05" => Some(c05::run(thorough)),
         "C06" => Some(c06::run(thorough)),
         "C08" => Some(c08::run(thorough)),
         "C12" => Some(c12::run(thorough)),
         "C13" => Some(c13::run(thorough)),
         "C14" => Some(c14::run(thorough)),
+        "C16" => Some(c16::run(thorough)),
+        "C17" => Some(c17::run(thorough)),
         "C19" => Some(c19::run(thorough)),
         _ => None,
     }
@@ -32,11 +38,14 @@ pub fn replay(id: &str, ex: &Value) -> Option<Report> {
         "C02" => Some(c02::replay(ex)),
         "C03" => Some(c03::replay(ex)),
         "C04" => Some(c04::replay(ex)),
+        "C05" => Some(c05::replay(ex)),
         "C06" => Some(c06::replay(ex)),
         "C08" => Some(c08::replay(ex)),
         "C12" => Some(c12::replay(ex)),
         "C13" => Some(c13::replay(ex)),
         "C14" => Some(c14::replay(ex)),
+        "C16" => Some(c16::replay(ex)),
+        "C17" => Some(c17::replay(ex)),
         "C19" => Some(c19::replay(ex)),
         _ => None,
     }
